@@ -1283,7 +1283,13 @@ func fF4(p *Prog, o *obls, fn *ssa.Function) {
 							if _, isAddr := u.(*ssa.FieldAddr); isAddr {
 								return // computing a field's address reads nothing; its loads are judged
 							}
+							if st, isStore := u.(*ssa.Store); isStore && cellAddr(addrRoot(st.Addr)) == ssa.Value(al) && p.origin(st.Val) != ssa.Value(al) {
+								return // overwriting (part of) the object reads nothing of what the parser left
+							}
 							if errV != nil && speculativeLoad(p, u, errV) {
+								return
+							}
+							if errV != nil && overwrittenOnFailure(p, u, al, errV) {
 								return
 							}
 							if w := checkUse(u, "parsed object"); w != "" {
@@ -1380,6 +1386,63 @@ func speculativeLoad(p *Prog, u ssa.Instruction, errV ssa.Value) bool {
 		return true
 	}
 	return okVal(ld, 0)
+}
+
+// overwrittenOnFailure: u loads a field of the parsed object al at a point that the failure branch of the error test also
+// reaches, but every path from a block where the error is known non-nil to u passes a store to that same field
+// (`if err != nil { ext.Seq = 0 }; use(ext.Seq)`): what is read after a failed parse is the value assigned, not what
+// the parser left.
+func overwrittenOnFailure(p *Prog, u ssa.Instruction, al *ssa.Alloc, errV ssa.Value) bool {
+	ld, ok := u.(*ssa.UnOp)
+	if !ok || ld.Op != token.MUL {
+		return false
+	}
+	fa, ok := ld.X.(*ssa.FieldAddr)
+	if !ok || cellAddr(addrRoot(fa)) != ssa.Value(al) {
+		return false
+	}
+	fn := u.Parent()
+	storeBlocks := map[*ssa.BasicBlock]bool{}
+	instrsOf(fn, func(in ssa.Instruction) {
+		if st, ok := in.(*ssa.Store); ok && cellAddr(addrRoot(st.Addr)) == ssa.Value(al) && sameFieldPath(st.Addr, fa) {
+			storeBlocks[st.Block()] = true
+		}
+	})
+	if len(storeBlocks) == 0 {
+		return false
+	}
+	// blocks where the error is known non-nil and that are entered from a block where it is not: failure entries
+	var work []*ssa.BasicBlock
+	for _, b := range fn.Blocks {
+		if p.nilnessAt(errV, b) == 1 {
+			for _, pr := range b.Preds {
+				if p.nilnessAt(errV, pr) != 1 {
+					work = append(work, b)
+					break
+				}
+			}
+		}
+	}
+	if len(work) == 0 {
+		return false
+	}
+	seen := map[*ssa.BasicBlock]bool{}
+	for len(work) > 0 {
+		b := work[len(work)-1]
+		work = work[:len(work)-1]
+		if seen[b] {
+			continue
+		}
+		seen[b] = true
+		if storeBlocks[b] {
+			continue // (a store in the failure region; the load, if in the same block, follows the join anyway)
+		}
+		if b == u.Block() {
+			return false
+		}
+		work = append(work, b.Succs...)
+	}
+	return true
 }
 
 // transitiveUsers: instructions using v directly (not through memory).
